@@ -68,6 +68,7 @@ struct Args {
     dump: Option<(usize, u64, u64)>,
     hang_ms: u64,
     artifact: Option<(String, PathBuf)>,
+    export_corpus: Option<(String, PathBuf)>,
 }
 
 fn parse_args() -> Args {
@@ -89,6 +90,7 @@ fn parse_args() -> Args {
         dump: None,
         hang_ms: 90_000,
         artifact: None,
+        export_corpus: None,
     };
     let triple = |args: &Vec<String>, i: usize| -> (usize, u64, u64) {
         if i + 3 >= args.len() {
@@ -146,6 +148,13 @@ fn parse_args() -> Args {
                 a.artifact = Some((args[i + 1].clone(), PathBuf::from(&args[i + 2])));
                 i += 2;
             }
+            "--export-corpus" => {
+                if i + 2 >= args.len() {
+                    usage()
+                }
+                a.export_corpus = Some((args[i + 1].clone(), PathBuf::from(&args[i + 2])));
+                i += 2;
+            }
             "--part" => a.part = true,
             "--worker" => a.worker = true,
             _ => usage(),
@@ -172,6 +181,10 @@ fn main() {
         println!("violation (libfuzzer/{target}): the fuzz target failed on an input of {} bytes", bytes.len());
         println!("VIOLATION property={} replay={}", a.id, path.display());
         std::process::exit(1);
+    }
+    if let Some((target, dir)) = &a.export_corpus {
+        props::faults::export_corpus(target, dir, a.seed);
+        std::process::exit(0);
     }
     if a.worker || a.probe.is_some() || a.dump.is_some() {
         worker(a)
